@@ -436,6 +436,27 @@ func caseMap(v value, upper bool) value {
 			}
 		case *Term:
 			requireASCII(b, "case mapping")
+			if b.vs != nil {
+				// every possible value maps to the same byte: the result is concrete
+				same, first := true, byte(0)
+				for j, v := range b.vs {
+					var m byte
+					if upper {
+						m = strings.ToUpper(string(rune(v)))[0]
+					} else {
+						m = strings.ToLower(string(rune(v)))[0]
+					}
+					if j == 0 {
+						first = m
+					} else if m != first {
+						same = false
+					}
+				}
+				if same {
+					r[i] = first
+					continue
+				}
+			}
 			var lo, hi, delta uint64 = 'A', 'Z', 32
 			if upper {
 				lo, hi, delta = 'a', 'z', ^uint64(31)
